@@ -310,7 +310,7 @@ func (w *World) Deliver(m *Msg) bool {
 // blocks / CoreAPI
 
 func (p *Peer) hasBlock(c cid.Cid) bool {
-	_, ok := p.blocks[c.KeyString()]
+	_, ok := p.blocks[bkey(c)]
 	return ok
 }
 
@@ -331,10 +331,10 @@ func (p *Peer) PutBlock(c cid.Cid, data []byte) {
 }
 
 func (p *Peer) putBlockLocked(c cid.Cid, data []byte) {
-	if _, ok := p.blocks[c.KeyString()]; ok {
+	if _, ok := p.blocks[bkey(c)]; ok {
 		return
 	}
-	p.blocks[c.KeyString()] = data
+	p.blocks[bkey(c)] = data
 	p.Effects = append(p.Effects, Effect{Kind: "block", Cid: c, Data: data})
 }
 
@@ -356,7 +356,7 @@ func (p *Peer) BlockCids() []cid.Cid {
 func (p *Peer) RawBlock(c cid.Cid) ([]byte, bool) {
 	p.w.mu.Lock()
 	defer p.w.mu.Unlock()
-	b, ok := p.blocks[c.KeyString()]
+	b, ok := p.blocks[bkey(c)]
 	return b, ok
 }
 
@@ -414,7 +414,7 @@ func (d *simDag) AddMany(ctx context.Context, ns []ipld.Node) error {
 func (d *simDag) Get(ctx context.Context, c cid.Cid) (ipld.Node, error) {
 	p, w := d.p, d.p.w
 	w.mu.Lock()
-	if data, ok := p.blocks[c.KeyString()]; ok {
+	if data, ok := p.blocks[bkey(c)]; ok {
 		w.mu.Unlock()
 		return decodeBlock(c, data)
 	}
@@ -438,7 +438,7 @@ func (d *simDag) Get(ctx context.Context, c cid.Cid) (ipld.Node, error) {
 	w.mu.Lock()
 	defer w.mu.Unlock()
 	for {
-		if data, ok := p.blocks[c.KeyString()]; ok {
+		if data, ok := p.blocks[bkey(c)]; ok {
 			return decodeBlock(c, data)
 		}
 		if err := ctx.Err(); err != nil {
@@ -446,7 +446,7 @@ func (d *simDag) Get(ctx context.Context, c cid.Cid) (ipld.Node, error) {
 		}
 		if w.AutoFetch {
 			if q := w.remoteHolderLocked(p, c); q != nil {
-				data := q.blocks[c.KeyString()]
+				data := q.blocks[bkey(c)]
 				p.putBlockLocked(c, data)
 				return decodeBlock(c, data)
 			}
@@ -480,7 +480,7 @@ func (w *World) CompleteFetch(p *Peer, c cid.Cid) bool {
 	if q == nil {
 		return false
 	}
-	p.putBlockLocked(c, q.blocks[c.KeyString()])
+	p.putBlockLocked(c, q.blocks[bkey(c)])
 	w.cond.Broadcast()
 	return true
 }
@@ -754,7 +754,7 @@ func (p *Peer) CloneDurable(n int) *Peer {
 	for _, e := range effs[:n] {
 		switch e.Kind {
 		case "block":
-			q.blocks[e.Cid.KeyString()] = e.Data
+			q.blocks[bkey(e.Cid)] = e.Data
 		case "put":
 			if data[e.Cache] == nil {
 				data[e.Cache] = map[string][]byte{}
@@ -789,3 +789,7 @@ func (p *Peer) EffectKinds() []string {
 	}
 	return out
 }
+
+// bkey is the key of a block in a peer's store: as in a real blockstore, the multihash, whatever
+// version and codec the CID that asks for it carries.
+func bkey(c cid.Cid) string { return string(c.Hash()) }
